@@ -83,6 +83,8 @@ def lateS (x : Exts) (cfg : Cfg) (st : MdSt) (stash : List Str) (root : Node) (l
           if x.toc then
             TocTree.run { fmt := cfg.fmt, post := postX x cfg xs.st.html } cfg.blockLevel t
           else .ok t
+        let side : List Toc.Tok × Option Str :=
+          if x.toc then tocSide x cfg xs.st.html t else (st.tocTokens, st.toc)
         match tocStage with
         | .oof => .oof
         | .err => .err
@@ -90,7 +92,8 @@ def lateS (x : Exts) (cfg : Cfg) (st : MdSt) (stash : List Str) (root : Node) (l
         | .ok t =>
           match TreeProc.unescapeTree t with
           | none => .err
-          | some u => .ok u { log := log, html := xs.st.html, fn := xs.fn, valid := true }
+          | some u =>
+            .ok u { log := log, html := xs.st.html, fn := xs.fn, valid := true, toc := side.2, tocTokens := side.1 }
 
 /-- the block parser of a conversion from the carried log: `parser.parseDocument(lines)` -/
 def docParseS (x : Exts) (cfg : Cfg) (log : Block.Refs) (text : Str) : Option (Node × Block.Refs) :=
@@ -105,6 +108,70 @@ theorem treeS_stages (x : Exts) (cfg : Cfg) (st : MdSt) (src : Str) :
         match docParseS x cfg st.log text with
         | none => .oof
         | some (root, log) => lateS x cfg st stash root log := rfl
+
+/-- the stages after the block parser look at the carried state only through the footnote-reference bookkeeping
+    (`used_refs`, `found_refs`), as far as the tree and the stash go; the side outputs are only passed on -/
+theorem lateS_proj_congr {x : Exts} {cfg : Cfg} {st st' : MdSt} (hf : st.fn = st'.fn) (stash : List Str) (root : Node)
+    (log : Block.Refs) : (lateS x cfg st stash root log).proj = (lateS x cfg st' stash root log).proj := by
+  unfold lateS
+  rw [hf]
+  generalize (if x.footnotes = true then
+      match FootnotesTree.makeDiv (parseChunkX x cfg) fnCount (BlockExt.footnotesOf log) log with
+      | .ok (some div, log') => FootnotesTree.R.ok (FootnotesTree.placeDiv root div, log')
+      | .ok (none, log') => .ok (root, log')
+      | .oof => .oof
+      | .ood => .ood
+    else .ok (root, log)) = fs
+  cases fs with
+  | oof => rfl
+  | ood => rfl
+  | ok p =>
+    obtain ⟨root1, log1⟩ := p
+    simp only []
+    generalize InlineX.runLoopX _ _ _ _ _ _ = rl
+    cases rl with
+    | none => rfl
+    | some p =>
+      obtain ⟨t, xs⟩ := p
+      simp only []
+      cases (if x.footnotes = true then FootnotesTree.duplicates xs.fn t else some t) with
+      | none => rfl
+      | some t =>
+        simp only []
+        generalize (if x.toc = true then TocTree.run _ _ _ else TocTree.R.ok _) = ts
+        cases ts with
+        | oof => rfl
+        | err => rfl
+        | ood => rfl
+        | ok t =>
+          simp only []
+          cases TreeProc.unescapeTree t <;> rfl
+
+/-- the tree and the stash do not depend on the side outputs carried in the state -/
+theorem treeS_proj_congr {x : Exts} {cfg : Cfg} {st st' : MdSt} (hl : st.log = st'.log) (hh : st.html = st'.html)
+    (hf : st.fn = st'.fn) (src : Str) : (treeS x cfg st src).proj = (treeS x cfg st' src).proj := by
+  rw [treeS_stages, treeS_stages, hl, hh]
+  cases prepareS x cfg st'.html src with
+  | oof => rfl
+  | ood => rfl
+  | ok p =>
+    obtain ⟨text, stash⟩ := p
+    simp only []
+    cases docParseS x cfg st'.log text with
+    | none => rfl
+    | some p =>
+      obtain ⟨root, log⟩ := p
+      exact lateS_proj_congr hf stash root log
+
+/-- **the answer of `convert` does not depend on the side outputs the instance holds** -/
+theorem convertS_fst_congr {x : Exts} {cfg : Cfg} {st st' : MdSt} (hv : st.valid = st'.valid) (hl : st.log = st'.log)
+    (hh : st.html = st'.html) (hf : st.fn = st'.fn) (src : Str) :
+    (convertS x cfg st src).1 = (convertS x cfg st' src).1 := by
+  cases hv' : st.valid with
+  | false =>
+    rw [convertS_invalid x cfg st src hv', convertS_invalid x cfg st' src (hv ▸ hv')]
+  | true =>
+    rw [convertS_fst x cfg st src hv', convertS_fst x cfg st' src (hv ▸ hv'), treeS_proj_congr hl hh hf]
 
 theorem lateS_log_prefix {x : Exts} {cfg : Cfg} {st st' : MdSt} {stash : List Str} {root u : Node}
     {log : Block.Refs} (h : lateS x cfg st stash root log = .ok u st') : log <+: st'.log := by
